@@ -1,2 +1,89 @@
-(* Proofs for property C01. *)
-From SC.Model Require Import Base.
+(* Proofs for property C01 (evaluation is total): result slots.  Parser termination is in
+   C01_Parser.v, the rewrite loops in C01_Rewrite.v, the session fold in SessionLemmas.v. *)
+From SC.Model Require Import Base Num Types Config Case Chrono UiTokens Rx Post Parser Items Interp
+     RuleFns Rules Format Lexer Api.
+From SC.Proofs Require Import SessionLemmas C01_Parser.
+From Coq Require Import Arith Lia.
+
+Local Open Scope nat_scope.
+
+(* ---------- lines ---------- *)
+(* number of line breaks: CRLF counts once, a lone LF once, a lone CR is an ordinary character *)
+Fixpoint breaks (x : str) : nat :=
+  match x with
+  | [] => 0
+  | 13%N :: 10%N :: r => S (breaks r)
+  | 10%N :: r => S (breaks r)
+  | _ :: r => breaks r
+  end.
+
+Lemma split_lines_breaks_n n : forall x cur, length x <= n -> length (split_lines x cur) = S (breaks x).
+Proof.
+  induction n as [|n IH]; intros x cur Hl; destruct x as [|c r]; cbn [split_lines breaks]; try reflexivity;
+    cbn [length] in Hl; try lia.
+  repeat match goal with
+         | |- context [match ?v with _ => _ end] => destruct v
+         end; cbn [length]; try (f_equal; apply IH; cbn [length] in *; lia); try (apply IH; cbn [length] in *; lia).
+Qed.
+
+Theorem split_lines_breaks x : length (split_lines x []) = S (breaks x).
+Proof. apply (split_lines_breaks_n (length x)). lia. Qed.
+
+Section WithNum.
+Context {F : Type} {NF : Num F}.
+Variable lx : lexdata.
+Variable ck : clock.
+
+(* one slot per line, status true, whenever the evaluation returns *)
+Theorem execute_one_slot_per_line (cfg : config F) lang text r :
+  execute lx ck cfg lang text = Ok r ->
+  er_status r = true /\ length (er_lines r) = S (breaks text).
+Proof.
+  intro H. destruct (execute_slots lx ck cfg lang text r H) as [H1 H2].
+  split; [exact H1|]. rewrite H2. apply split_lines_breaks.
+Qed.
+
+(* slot i is the evaluation of line i under the variables left by the lines before it: the
+   fold continues after an empty slot or an error slot alike *)
+Theorem eval_lines_cons (cfg : config F) lang vs l r :
+  eval_lines lx ck cfg lang vs (l :: r) =
+  match execute_text lx ck cfg lang vs l with
+  | Panic st => Panic st
+  | Ok (o, vs') =>
+    match eval_lines lx ck cfg lang vs' r with
+    | Panic st => Panic st
+    | Ok (os, vs'') => Ok (o :: os, vs'')
+    end
+  end.
+Proof. reflexivity. Qed.
+
+Theorem eval_lines_slot (cfg : config F) lang vs l1 l l2 os1 v1 o v2 os2 v3 :
+  eval_lines lx ck cfg lang vs l1 = Ok (os1, v1) ->
+  execute_text lx ck cfg lang v1 l = Ok (o, v2) ->
+  eval_lines lx ck cfg lang v2 l2 = Ok (os2, v3) ->
+  eval_lines lx ck cfg lang vs (l1 ++ l :: l2) = Ok (os1 ++ o :: os2, v3) /\
+  nth_opt (os1 ++ o :: os2) (length l1) = Some o.
+Proof.
+  intros H1 H2 H3. split.
+  - rewrite eval_lines_app, H1. cbn [eval_lines]. rewrite H2, H3. reflexivity.
+  - rewrite <- (eval_lines_length lx ck _ _ _ _ _ _ H1).
+    clear. induction os1 as [|x os1 IH]; cbn [app length nth_opt]; [reflexivity|exact IH].
+Qed.
+
+(* a line that cannot be parsed or evaluated yields an error VALUE in its own slot: the parser
+   returns PErr / the interpreter IErr, both mapped to LErr by execute_text; only Panic stops
+   the fold, and the parser cannot be the source of SITE_OUT_OF_FUEL *)
+Theorem parser_never_out_of_fuel (tokens : list (token F)) (vs : vars F) : fst (parse tokens vs) <> PFuel.
+Proof. apply parse_terminates. Qed.
+
+(* an unknown language tag: no rules, no language aliases; the rule pass is the identity *)
+Theorem unknown_language_rules bexec now_year fuel line (cfg : config F) lang vs st :
+  lang_rules cfg lang = None ->
+  rule_tokinizer bexec now_year fuel line cfg lang vs st = Ok (Some st).
+Proof. intro H. unfold rule_tokinizer. rewrite H. reflexivity. Qed.
+
+Theorem unknown_language_constants (cfg : config F) lang word :
+  lang_constants cfg lang = None -> constant_of cfg lang word = Ok None.
+Proof. intro H. unfold constant_of. rewrite H. reflexivity. Qed.
+
+End WithNum.
